@@ -154,6 +154,31 @@ type richWriter struct {
 	flushes int
 }
 
+// ReadFrom copies like io.Copy does for a writer without ReadFrom: chunks of
+// 32 KiB through Write, stopping at the first error or short write.
+func (w *richWriter) ReadFrom(r io.Reader) (n int64, err error) {
+	buf := make([]byte, 32<<10)
+	for {
+		k, rerr := r.Read(buf)
+		if k > 0 {
+			m, werr := w.planWriter.Write(buf[:k])
+			n += int64(m)
+			if werr != nil {
+				return n, werr
+			}
+			if m < k {
+				return n, io.ErrShortWrite
+			}
+		}
+		if rerr == io.EOF {
+			return n, nil
+		}
+		if rerr != nil {
+			return n, rerr
+		}
+	}
+}
+
 func (w *richWriter) Flush() error { w.flushes++; return nil }
 func (w *richWriter) Sync() error  { return nil }
 func (w *richWriter) WriteString(s string) (int, error) {
